@@ -12,6 +12,9 @@ def run(rep):
     fw.standin(rep, 'difftest.py', ['run', 'F4', rep.seed + 13, 1200 if q else 20000],
                'facts asserted under binding histories and used several times vs reference (copy semantics)',
                'random F4 cases incl. non-ground facts used twice and variables bound after the assert')
+    fw.standin(rep, 's_dbx.py', ['run', rep.seed, 500 if q else 6000],
+               'systematic small-scope database histories: repeated-variable and all-unbound patterns, non-ground facts, retract resumed after other operations',
+               'e/2 over {a,b}: 5 databases x 7 patterns x 26 inner operations + random histories')
     rep.notes.append('assert_fact stores fresh_copy(values) = rename(resolve(values)); Answer.match unifies with a fresh copy per use; '
                      'L-RN-FRESH: every variable of a fresh copy is new (id >= allocation counter), so a stored fact shares no cell '
                      'with the caller and two uses share none with each other')
